@@ -6,7 +6,7 @@ from .. import scenes, obs, oracles, twin, pipeline
 
 ID, NUM, LEVEL = 'C10', 10, 'exploration'
 VARIANTS = ['idx_permuted', 'idx_offset', 'idx_string', 'idx_float', 'idx_concat', 'idx_random_repeats', 'idx_all_same',
-            'idx_sorted_repeats', 'idx_datetime', 'idx_named_like_column', 'idx_multi_from_columns', 'idx_range_descending', 'idx_range_offset', 'cols_stale_ids', 'cols_permuted', 'cols_extra', 'ceilo_object', 'ceilo_str_or_category',
+            'idx_sorted_repeats', 'idx_datetime', 'idx_named_like_column', 'idx_multi_from_columns', 'idx_range_descending', 'idx_range_offset', 'idx_exotic_type', 'cols_stale_ids', 'cols_permuted', 'cols_extra', 'ceilo_object', 'ceilo_str_or_category',
             'type_float', 'type_narrow_int', 'dt_height_int', 'height_float32']
 RULE = ('Evaluation = one (plainly indexed frame, variant frame) pair run through the real pipeline; the two canonical '
         'observations (three tables incl. dtypes, three messages, flag, per-hit data by position) must be bit-'
@@ -57,6 +57,17 @@ def make_variant(rng, df, name):
         out.index = pd.RangeIndex(n - 1, -1, -1)
     elif name == 'idx_range_offset':
         out.index = pd.RangeIndex(133, 133 + n) if rng.uniform() < 0.5 else pd.RangeIndex(-7, -7 + 3 * n, 3)
+    elif name == 'idx_exotic_type':
+        kind = int(rng.integers(9))
+        out.index = [pd.MultiIndex.from_arrays([np.arange(n) % 3, np.arange(n) // 3]),
+                     pd.MultiIndex.from_arrays([np.zeros(n, int), np.arange(n) % 2]),
+                     pd.CategoricalIndex((['x', 'y', 'z'] * n)[:n]),
+                     pd.interval_range(0, n) if n else pd.Index([]),
+                     pd.period_range('2024-01', periods=n, freq='D'),
+                     pd.to_timedelta(np.arange(n) % 4, unit='s'),
+                     pd.Index(([True, False] * n)[:n]),
+                     pd.Index([np.nan] * n),
+                     pd.Index(([1, 'a', None, 2.5] * n)[:n], dtype=object)][kind]
     elif name == 'cols_stale_ids':
         # the frame of an earlier run fed back: superfluous columns that bear the names of ampycloud's own id columns
         for c in ('slice_id', 'group_id', 'layer_id'):
